@@ -146,6 +146,20 @@ fn small_family(len: usize, fam: usize, rng: &mut Rng) -> (Vec<u8>, &'static str
             }
             "size-prefix-extremes"
         }
+        12 => {
+            // a bzip2 magic right at the start (a record whose size prefix was stripped)
+            for (i, x) in b.iter_mut().enumerate() {
+                *x = *b"BZh91AY&SY".get(i).unwrap_or(&0);
+            }
+            "BZh-at-0"
+        }
+        13 => {
+            // 24-byte header followed directly by a bzip2 magic
+            for (i, x) in b.iter_mut().enumerate() {
+                *x = *b"AR2V0006.001\0\0\0\0\0\0\0\0KDMXBZh91AY&SY".get(i).unwrap_or(&0);
+            }
+            "AR2-header+BZh-without-prefix"
+        }
         10 => {
             // AR2 header followed by BZ
             for (i, x) in b.iter_mut().enumerate() {
@@ -176,9 +190,9 @@ pub fn run(ctx: &mut Ctx) {
         println!("replay: recorded input was abbreviated; re-running the whole seeded workload");
     }
     ctx.rule = "a case is one byte string wrapped as File / Record (owned and borrowed) / Chunk and driven through records, header (+accessors), compressed, decompress (and the decompressed record's own calls), messages, scan, split_compressed_records and {:?} of each; \
-trivial = empty input; distinct = distinct input contents; families: every length 0..=64 x 12 content families, every truncation point of valid volumes/containers/chunks, corrupted size prefix at every record, 1-16 bit flips in bzip2 bodies, random bytes to 8 KiB; verdict monitors = panic hook and a per-call CPU-time budget of 20 s (thread CPU clock, not wall time) as the termination monitor"
+trivial = empty input; distinct = distinct input contents; families: every length 0..=64 x 14 content families, every truncation point of valid volumes/containers/chunks, corrupted size prefix at every record, 1-16 bit flips in bzip2 bodies, hostile message streams (C04's generators) as raw records and compressed inside volumes, random bytes to 8 KiB; verdict monitors = panic hook and a per-call CPU-time budget of 20 s (thread CPU clock, not wall time) as the termination monitor"
         .into();
-    ctx.exhaustive = Some("every length 0..=64 for each of 12 content families; every truncation point of the generated valid files in this run".into());
+    ctx.exhaustive = Some("every length 0..=64 for each of 14 content families; every truncation point of the generated valid files in this run".into());
     ctx.floor_evaluations = 1_000;
     let seed = ctx.seed;
     {
@@ -193,7 +207,7 @@ trivial = empty input; distinct = distinct input contents; families: every lengt
         let mut rng = Rng::derive(seed, 6, 0);
         let mut obs = Obs::new();
         for len in 0..=64usize {
-            for fam in 0..12usize {
+            for fam in 0..14usize {
                 let (b, name) = small_family(len, fam, &mut rng);
                 run_input(&mut obs, &b, name);
                 obs.count("boundary_length_inputs", 1);
@@ -247,7 +261,21 @@ trivial = empty input; distinct = distinct input contents; families: every lengt
     let total: u64 = ctx.tier.pick(6_000, 1_500_000);
     par_cases(ctx, total, |i, obs| {
         let mut rng = Rng::derive(seed, 6, 100 + i);
-        let (input, family): (Vec<u8>, &str) = match rng.below(5) {
+        let (input, family): (Vec<u8>, &str) = match rng.below(7) {
+            5 | 6 => {
+                // hostile *message streams* (C04's generators: block count 0/65535, wild
+                // pointers, mutated frames ...) reached through the C06 entry points: as a raw
+                // record, and bzip2-compressed inside a volume file
+                let (stream, _) = super::c04::gen_input(&mut rng);
+                let stream = if stream.len() > 200_000 { stream[..200_000].to_vec() } else { stream };
+                if rng.chance(1, 2) {
+                    (stream, "hostile-message-stream-as-record")
+                } else {
+                    let mut f = enc::VolHeader::realistic(&mut rng).encode().to_vec();
+                    f.extend_from_slice(&enc::ldm_record(&enc::bzip2_compress(&stream, 1), rng.chance(1, 2)));
+                    (f, "hostile-message-stream-in-volume")
+                }
+            }
             0 | 1 => {
                 // corrupt the size prefix of one record
                 let spec = gen_container(&mut rng, 1024);
